@@ -98,6 +98,11 @@ def interp_event(n1, n2, kind, double, rng, data_double=None):
                 ev["roundtrip_ppb"] = 2_000_000_000          # the caller's array was modified by the interpolation
                 ev["input_modified"] = True
             x = x0
+            # the non-default flag: the caller allows its array to be overwritten - the RESULT is the same (the very first transform
+            # of a shape in a process included: a backend that plans on the caller's data would return garbage exactly once)
+            up_ow = fft_interpolate(x0.copy(), tuple(n2), normalization="values", overwrite_x=True)
+            back_ow = fft_interpolate(up_ow.copy(), tuple(n1), normalization="values", overwrite_x=True)
+            ev["roundtrip_ppb"] = max(ev["roundtrip_ppb"], ppb(relmax(up_ow, up0)), ppb(relmax(back_ow, x0)))
             # the mean is preserved to the precision of the data: deviation relative to the magnitude of the values
             ev["mean_ppb"] = ppb(abs(np.mean(up) - np.mean(x)) / float(np.abs(x).max()))
             upi = fft_interpolate(x, tuple(n2), normalization="intensity")
@@ -154,7 +159,10 @@ def downsample_event(n1, n2, lazy, rng):
         if lazy:
             d = d.compute()
         out = np.asarray(d.array)
-        ev["shape_ok"] = out.shape == (2,) + tuple(n2) and tuple(d.gpts) == tuple(n2)
+        # same function on the same piece of space: the extent is kept and the sampling is extent / gpts on EACH axis
+        geometry = all(abs(float(e) - float(n)) < 1e-5 * n for e, n in zip(d.extent, n1)) and \
+            all(abs(float(s) - n / m) < 1e-5 * n / m for s, n, m in zip(d.sampling, n1, n2))
+        ev["shape_ok"] = out.shape == (2,) + tuple(n2) and tuple(d.gpts) == tuple(n2) and bool(geometry)
         # independent reference: pixel values of the band-limited function on the coarser grid
         ref = np.zeros(n2, dtype=np.complex128)
         for a in range(n2[0]):
